@@ -20,13 +20,15 @@ the property's conclusion directly:
     operation consumed by an admin call or by `__check_auth` must have been scheduled (ledger `l`,
     delay `d`) with `l + d` — saturating at u32::MAX — `≤ now`, not cancelled or executed since;
     every reported operation state and ready ledger must be the one this log prescribes;
+  * nothing stored changes while the ledger advances (idle gaps of up to 100 days): only
+    Waiting → Ready by time;
   * the minimum delay, role membership and admin change only through an accepted call of the
     corresponding kind; a rejected call changes nothing; Done stays Done.
 -/
 namespace OZ.Drv.C09
 open OZ.Drv OZ.Timelock OZ.TimelockController OZ.Host
 
-def MAX_TTL : Nat := 200000
+def MAX_TTL : Nat := 6312000
 def NACC : Nat := 5
 
 /-- "1.2.3" / "-" -/
@@ -425,6 +427,24 @@ def check (m : Mon) (opl obs : String) : Mon × Option String :=
     | none => fin m none
     | some prev =>
       -- Done stays Done, whatever happens
+      -- across an idle gap nothing stored may change: only Waiting → Ready, by time
+      let idle : Option String :=
+        if kind ≠ "advance" then none
+        else
+          let n := (kvNat? rest "n").getD 0
+          if o.min ≠ prev.min then some s!"site=controller.idle.lost the minimum delay changed over an idle gap of {n} ledgers"
+          else if o.admin ≠ prev.admin then some s!"site=controller.idle.lost the admin changed over an idle gap of {n} ledgers"
+          else if o.roles ≠ prev.roles then some s!"site=controller.idle.lost role membership changed over an idle gap of {n} ledgers"
+          else if o.calls ≠ prev.calls then some s!"site=controller.idle.lost the target was called during an idle gap"
+          else
+            ((List.range prev.st.length).filterMap (fun k =>
+              match prev.st[k]?, o.st[k]? with
+              | some (a, la), some (b, lb) =>
+                if a = b ∧ la = lb then none
+                else if a = "W" ∧ b = "R" ∧ la = lb ∧ lb ≤ o.now then none
+                else some s!"site=controller.idle.lost operation {k}: {a}:{la} before an idle gap of {n} ledgers, {b}:{lb} after it"
+              | _, _ => none)).head?
+      if idle.isSome then fin m idle else
       let undone := (List.range prev.st.length).find? (fun k => stCode prev k = "D" ∧ stCode o k ≠ "D")
       if undone.isSome then fin m (some s!"site=controller.done operation {undone.getD 0} was Done and is {stCode o (undone.getD 0)}") else
       if ¬ o.ok then
